@@ -231,6 +231,7 @@ inductive Form where
   | early (msg : Str)     -- PyXFormError from workbook_to_json / the builder: before `to_xml` is entered
   | late (msg : Str)      -- PyXFormError while rendering inside `print_xform_to_file` (the temp file exists)
   | unencodable (msg : Str) -- rendering succeeds, writing the text raises (lone surrogate): `except` branch of print_xform_to_file
+  | diskFault (msg : Str)   -- rendering succeeds, `open`/`write` of the temp file raises OSError (disk full, file vanished): same branch
   | ok (ugly pretty : Str) (itemsets : Option Str) (preW postW : List Str)
   deriving Repr, DecidableEq
 
@@ -247,6 +248,9 @@ def printXformToFile (form : Form) (path : Path) (validate pretty : Bool) (env :
   | .unencodable m =>
     -- `open(path, "w")` truncates, `write` raises; `except Exception: if exists: unlink; raise`
     ⟨FS.unlink (FS.write fs path []) path, [], .error (.encode m)⟩
+  | .diskFault m =>
+    -- the same `except Exception` branch with an OSError: whatever was created or partly written is unlinked
+    ⟨FS.unlink (FS.write fs path []) path, [], .error (.osError m)⟩
   | .ok ugly prettyX _ _ postW =>
     let xml := if pretty then prettyX else ugly
     let fs1 := FS.write fs path xml
